@@ -53,35 +53,9 @@ Definition code_txt (c : option tag) : bool :=
   match c with Some tag_description | Some tag_cov_mat => true | _ => false end.
 Definition code_grammar : grammar tag := Build_grammar code_cm code_fin code_txt.
 
-(* ---------- the grammar of xml/gama-local.xsd (element structure only) ---------- *)
-Definition xsd_cm (c : option tag) (q : nat) (t : tag) : option nat :=
-  match c, q with
-  | None, 0 => match t with tag_gama_xml => Some 1 | _ => None end
-  | Some tag_gama_xml, 0 => match t with tag_network => Some 1 | _ => None end             (* exactly one network *)
-  | Some tag_network, 0 => match t with tag_description | tag_parameters | tag_points_observations => Some 0 | _ => None end
-  | Some tag_points_observations, 0 =>
-    match t with tag_point | tag_obs | tag_coordinates | tag_height_differences | tag_vectors => Some 0 | _ => None end
-  | Some tag_obs, 0 => if obs_kind t then Some 0 else match t with tag_cov_mat => Some 1 | _ => None end
-  | Some tag_coordinates, 0 => match t with tag_point => Some 2 | _ => None end            (* point+ cov-mat *)
-  | Some tag_coordinates, 2 => match t with tag_point => Some 2 | tag_cov_mat => Some 1 | _ => None end
-  | Some tag_height_differences, 0 => match t with tag_dh => Some 2 | _ => None end        (* dh+ cov-mat? *)
-  | Some tag_height_differences, 2 => match t with tag_dh => Some 2 | tag_cov_mat => Some 1 | _ => None end
-  | Some tag_vectors, 0 => match t with tag_vec => Some 2 | _ => None end                  (* vec+ cov-mat *)
-  | Some tag_vectors, 2 => match t with tag_vec => Some 2 | tag_cov_mat => Some 1 | _ => None end
-  | _, _ => None
-  end.
-Definition xsd_fin (c : option tag) (q : nat) : bool :=
-  match c, q with
-  | None, 1 => true
-  | None, _ => false
-  | Some tag_gama_xml, q => Nat.eqb q 1
-  | Some (tag_coordinates | tag_vectors), q => Nat.eqb q 1
-  | Some tag_height_differences, q => Nat.eqb q 1 || Nat.eqb q 2
-  | Some tag_obs, q => Nat.eqb q 0 || Nat.eqb q 1
-  | Some _, 0 => true
-  | _, _ => false
-  end.
-Definition xsd_grammar : grammar tag := Build_grammar xsd_cm xsd_fin code_txt.
+(* ---------- the grammar of xml/gama-local.xsd (element structure): content automata regenerated from the schema by
+   tools/gkf_translate.py (GkfGen.v: xsd_cm_gen, xsd_fin_gen, xsd_txt_gen) ---------- *)
+Definition xsd_grammar : grammar tag := Build_grammar xsd_cm_gen xsd_fin_gen xsd_txt_gen.
 
 (* ---------- abstraction: parser state -> stack of open elements with their content-model states ---------- *)
 Definition k_doc1 : stack tag := [(None, 1)].
